@@ -78,12 +78,27 @@ def run(ctx):
     inner_io = [n for st in sl.body for n in ast.walk(st) if isinstance(n, ast.Call) and is_io_call(n)]
     ctx.ob("C20.a", fn.qual, not inner_io, "no network call inside the parsing loop", func=fn.qual, file=file, node=inner_io[0] if inner_io else None,
            fail="the parsing loop itself talks to the device: a later invalid setting is rejected after something was sent")
-    stores = [n for n in ast.walk(fn.node) if isinstance(n, ast.Subscript) and isinstance(n.ctx, ast.Store) and isinstance(n.value, ast.Name) and n.value.id == "new_properties"]
+    # the pending set: the local that the parsing loop extends by key stores (whatever it is called)
+    info = s.loops[sl]
+    PEND = None
+    for st in info["ends"] + info["continues"]:
+        for k, v in st.env.items():
+            if "." not in k and any(x[0] == "store" and x[1] == ("loopvar", k, sl.lineno) for x in subterms(v)):
+                PEND = k
+    if PEND is None:
+        raise AnalysisError(f"{fn.qual}: the parsing loop records its results in no local mapping")
+    stores = [n for n in ast.walk(fn.node) if isinstance(n, ast.Subscript) and isinstance(n.ctx, ast.Store) and isinstance(n.value, ast.Name) and n.value.id == PEND]
+    stores += [n for n in ast.walk(fn.node) if isinstance(n, ast.Call) and isinstance(n.func, ast.Attribute) and isinstance(n.func.value, ast.Name) and n.func.value.id == PEND
+               and n.func.attr in ("update", "setdefault", "__setitem__")]
     outside = [n for n in stores if not any(n is x for st in sl.body for x in ast.walk(st))]
     ctx.ob("C20.a", fn.qual, not outside and bool(stores), "every pending setting is recorded inside the parsing loop (validated before I/O)", func=fn.qual, file=file,
            construct="new_properties stores", fail="settings are added to the pending set outside the validated parsing loop")
-    for q in (f"{CLI}._control", f"{CLI}._connect", f"{CLI}._query"):
-        f2 = ctx.fn(q)
+    from ..helpers import with_helpers
+    exit_fns = {}
+    for q0 in (f"{CLI}._control", f"{CLI}._connect", f"{CLI}._query"):
+        for f2 in with_helpers(prog, ctx.fn(q0)):        # ... and the helpers they call that the rules do not know
+            exit_fns[f2.qual] = f2
+    for q, f2 in sorted(exit_fns.items()):
         for n in ast.walk(f2.node):
             if isinstance(n, ast.Call) and isinstance(n.func, ast.Name) and n.func.id == "exit":
                 ctx.count("exits")
@@ -91,39 +106,49 @@ def run(ctx):
                 ctx.ob("C20.a", q, isinstance(v, int) and v != 0, f"exit({v}) is a non-zero status", func=q, file=file, node=n,
                        fail=f"a rejection / failure path exits with status {v}")
     # ---------------------------------------------------------------- C20.b
-    info = s.loops[sl]
-    key_t = None
     leaves = []
     for st in info["ends"] + info["continues"]:
-        v = st.env.get("new_properties")
+        v = st.env.get(PEND)
         if v is None:
             continue
         for conds, leaf in ite_leaves(v):
             if leaf[0] == "store":
-                leaves.append((conds, leaf, st))
+                # (the stored value may itself be gated: `x = a if c else b; pending[name] = x`)
+                for conds2, val in ite_leaves(strip(leaf[3])):
+                    leaves.append((tuple(st.pc) + tuple(conds) + tuple(conds2), ("store", leaf[1], leaf[2], val), st))
     ctx.count("conversion_leaves", len(leaves))
     NAME = None
     for conds, leaf, st in leaves:
         NAME = leaf[2]
-    # path facts at the first conversion statement: the statement assigning attr_value
-    conv_stmt = None
+    # the default value the conversion type is taken from: getattr(<fresh AirConditioner>, name); path facts at its statement
+    par = {}
+    for n in ast.walk(fn.node):
+        for c in ast.iter_child_nodes(n):
+            par[c] = n
+    conv_stmt = conv_call = None
     for n in ast.walk(sl):
-        if isinstance(n, ast.Assign) and isinstance(n.value, ast.Call) and isinstance(n.value.func, ast.Name) and n.value.func.id == "getattr" and n in s.ta.env_at:
-            t = s.ta.terms_at.get(n.value)
-            if t is not None and any(call_is(x, AC) for x in subterms(t)):
-                conv_stmt = n
+        if isinstance(n, ast.Call) and n in s.ta.terms_at:
+            t = s.ta.terms_at[n]
+            if call_is(t, "getattr") and len(t[2]) >= 2 and call_is(strip(t[2][0]), AC):
+                st_n = n
+                while st_n in par and st_n not in s.ta.env_at:
+                    st_n = par[st_n]
+                if st_n in s.ta.env_at:
+                    conv_stmt, conv_call = st_n, n
+    DEFAULT = s.ta.terms_at[conv_call] if conv_call is not None else None
+    TYPE = ("call", ("ext", "type"), (DEFAULT,), ()) if DEFAULT is not None else None
     if conv_stmt is None:
         ctx.violation("C20.b", fn.qual, "the conversion type is not taken from a fresh AirConditioner instance's attribute", file=file, construct="attr_value")
     else:
         facts = atoms(s.ta.env_at[conv_stmt].pc)
-        tv = s.ta.terms_at[conv_stmt.value]
-        fresh = call_is(tv, "getattr") and call_is(strip(tv[2][0]), AC) and strip(tv[2][1]) == NAME
+        tv = DEFAULT
+        fresh = call_is(tv, "getattr") and call_is(strip(tv[2][0]), AC) and strip(tv[2][1]) == strip(NAME)
         ctx.ob("C20.b", fn.qual, fresh, "conversion type = type(getattr(<fresh AirConditioner>, name))", func=fn.qual, file=file, node=conv_stmt,
                fail="the conversion type does not come from the named attribute's default on a fresh instance")
-        prop_terms = [x for f in facts for x in subterms(f) if call_is(x, "getattr") and x[2][0] == ("global", AC) and strip(x[2][1]) == NAME]
+        prop_terms = [x for f in facts for x in subterms(f) if call_is(x, "getattr") and x[2][0] == ("global", AC) and strip(x[2][1]) == strip(NAME)]
         PROP = prop_terms[0] if prop_terms else None
-        exists = PROP is not None and any(f == ("cmp", "is not", PROP, ("const", None)) for f in facts) and \
-            any(call_is(f, "isinstance") and f[2] == (PROP, ("global", "property")) for f in facts)
+        # (isinstance(x, property) already excludes None: a separate `is None` test is optional)
+        exists = PROP is not None and any(call_is(f, "isinstance") and f[2] == (PROP, ("global", "property")) for f in facts)
         ctx.ob("C20.b", fn.qual, exists, "conversion is reached only when getattr(AirConditioner, name) is a property", func=fn.qual, file=file, node=conv_stmt,
                detail={"facts": [show(f)[:100] for f in facts]}, fail="unknown setting names are not rejected before conversion")
         # writable: NOT(name != KEY and fset is None)  <=>  name == KEY or fset is not None
@@ -131,7 +156,7 @@ def run(ctx):
         for c, truth in s.ta.env_at[conv_stmt].pc:
             if not truth and c[0] == "bool" and c[1] == "and" and len(c[2]) == 2:
                 a, b = c[2]
-                has_key = any(x[0] == "cmp" and x[1] == "!=" and strip(x[2]) == NAME and x[3] == ("const", "display_on") for x in (a, b))
+                has_key = any(x[0] == "cmp" and x[1] == "!=" and strip(x[2]) == strip(NAME) and x[3] == ("const", "display_on") for x in (a, b))
                 has_fset = any(x[0] == "cmp" and x[1] == "is" and x[3] == ("const", None) and strip(x[2]) == ("attr", PROP, "fset") for x in (a, b)) if PROP else False
                 wr = wr or (has_key and has_fset)
         ctx.ob("C20.b", fn.qual, wr, "read-only settings are rejected (no setter), except the display key which is handled by toggling", func=fn.qual, file=file,
@@ -180,62 +205,119 @@ def run(ctx):
                 ctx.ob("C20.d", q, False, "", func=q, file=ac.module.rel, construct=f"{q.split('.')[-1]}.{m}", fail=f"enum member {m} is not upper-case: upper-casing the input no longer means case-insensitive")
         ctx.count("enum_classes")
     # ---------------------------------------------------------------- C20.d decision tree
+    # Every value recorded for a setting, with the decisions on its path (the loop's path condition plus the gates of the stored
+    # term; converters that are helpers - nested or module-level - are seen through).  Decisions are recognised in any spelling
+    # that tests the same thing: isinstance(default, C) / issubclass(type(default), C) / type(default) is C.
+    ENUM_BASE, FAN = ("global", "msmart.utils.MideaIntEnum"), ("global", f"{AC}.FanSpeed")
+
+    def is_type_term(x):
+        x = strip(x)
+        return DEFAULT is not None and call_is(x, "type") and len(x[2]) == 1 and strip(x[2][0]) == strip(DEFAULT)
+
+    def is_default(x):
+        return DEFAULT is not None and strip(x) == strip(DEFAULT)
+
+    def decisions(conds):
+        enum_b = bool_b = num_b = fan_g = None
+        for a in atoms(conds):
+            truth = True
+            a = strip(a)
+            while a[0] == "un" and a[1] == "not":
+                a, truth = strip(a[2]), not truth
+            if call_is(a, "isinstance") and len(a[2]) == 2:
+                if is_default(a[2][0]) and a[2][1] == ENUM_BASE:
+                    enum_b = truth
+                elif is_default(a[2][0]) and a[2][1] == ("global", "bool"):
+                    bool_b = truth
+                elif a[2][1][0] == "tuple" and set(a[2][1][1]) == {("global", "int"), ("global", "float")}:
+                    num_b = truth
+            elif call_is(a, "issubclass") and len(a[2]) == 2 and is_type_term(a[2][0]):
+                if a[2][1] == ENUM_BASE:
+                    enum_b = truth
+                elif a[2][1] == ("global", "bool"):
+                    bool_b = truth
+            elif a[0] == "cmp" and a[1] in ("==", "is", "!=", "is not"):
+                l, r = strip(a[2]), strip(a[3])
+                if is_type_term(r):
+                    l, r = r, l
+                if is_type_term(l):
+                    pos = (a[1] in ("==", "is")) == truth
+                    if r == FAN:
+                        fan_g = pos
+                    elif r == ("global", "bool"):
+                        bool_b = pos
+        return enum_b, bool_b, num_b, fan_g
+
+    def literal_of(x):
+        """x is ast.literal_eval(y) - possibly with the fallback `y` when the literal does not parse: returns y"""
+        x = strip(x)
+        if x[0] == "ite":
+            ys = {repr(literal_of(x[2]) or strip(x[2])), repr(literal_of(x[3]) or strip(x[3]))}
+            inner = literal_of(x[2]) or literal_of(x[3])
+            return inner if inner is not None and len(ys) == 1 else None
+        if call_is(x, "ast.literal_eval") and len(x[2]) == 1:
+            return strip(x[2][0])
+        return None
+
     kinds = {}
     for conds, leaf, st in leaves:
         val = leaf[3]
-        cdesc = []
-        enum_b = bool_b = num_b = fan_g = None
-        for c, truth in conds:
-            cs = strip(c)
-            if call_is(cs, "isinstance") and len(cs[2]) == 2:
-                if cs[2][1] == ("global", "msmart.utils.MideaIntEnum"):
-                    enum_b = truth
-                elif cs[2][1] == ("global", "bool"):
-                    bool_b = truth
-                elif cs[2][1][0] == "tuple" and set(cs[2][1][1]) == {("global", "int"), ("global", "float")}:
-                    num_b = truth
-            if cs[0] == "cmp" and cs[1] == "==" and ("global", f"{AC}.FanSpeed") in (cs[2], cs[3]):
-                fan_g = truth
+        enum_b, bool_b, num_b, fan_g = decisions(conds)
         v = strip(val)
-        if enum_b and num_b and v[0] == "call" and v[1][0] == "dyn" and call_is(strip(v[1][1]), "type"):
+        typed_call = v[0] == "call" and v[1][0] == "dyn" and is_type_term(v[1][1]) and len(v[2]) == 1
+        by_name_idx = v[2] if (v[0] == "sub" and is_type_term(v[1])) else (
+            v[2][0] if (v[0] == "call" and v[1][0] == "meth" and v[1][2] == "get" and strip(v[1][1])[0] == "attr" and strip(v[1][1])[2] == "__members__"
+                        and is_type_term(strip(v[1][1])[1]) and v[2]) else None)
+        if enum_b and num_b and typed_call:
             kinds["enum-by-value"] = (conds, v)
         elif enum_b and num_b and call_is(v, "int"):
             kinds["raw-int"] = (conds, v, fan_g)
-        elif enum_b and num_b is False and v[0] == "sub" and call_is(strip(v[1]), "type"):
-            kinds["enum-by-name"] = (conds, v)
-        elif enum_b is False and bool_b and v[0] == "call" and v[1][0] == "dyn" and v[1][1][0] == "localfunc":
+        elif enum_b and num_b is False and by_name_idx is not None:
+            kinds["enum-by-name"] = (conds, v, by_name_idx)
+        elif enum_b is not True and bool_b and call_is(v, "bool") and len(v[2]) == 1:       # (a bool default is never an enum member)
             kinds["bool"] = (conds, v)
-        elif enum_b is False and bool_b is False and v[0] == "call" and v[1][0] == "dyn" and v[1][1][0] == "localfunc":
+        elif enum_b is False and bool_b is False and typed_call:
             kinds["number"] = (conds, v)
         else:
             kinds.setdefault("other", []).append((show(v)[:100], [show(c)[:60] + f"={t}" for c, t in conds]))
     ctx.ob("C20.d", fn.qual, set(kinds) == {"enum-by-value", "raw-int", "enum-by-name", "bool", "number"}, "the stored value has exactly the five documented conversion leaves",
            func=fn.qual, file=file, construct="conversion decision tree", detail={"kinds": sorted(kinds), "other": kinds.get("other")},
            fail=f"conversion decision tree changed: leaves {sorted(kinds)} {kinds.get('other', '')}")
+    VALUE = None
+    if NAME is not None and strip(NAME)[0] == "item":
+        VALUE = ("item", strip(NAME)[1], 1)
     if "raw-int" in kinds:
         ctx.ob("C20.d", fn.qual, kinds["raw-int"][2] is True, "raw integers are accepted only when the attribute type is FanSpeed", func=fn.qual, file=file,
                construct="raw integer fallback", fail="raw integers are accepted for enumerations other than FanSpeed")
     if "enum-by-name" in kinds:
-        idx = strip(kinds["enum-by-name"][1][2])
+        idx = strip(kinds["enum-by-name"][2])
         ctx.ob("C20.d", fn.qual, meth_is(idx, "upper"), "member lookup by upper-cased name (case-insensitive)", func=fn.qual, file=file, construct="attr_type[value.upper()]",
                fail="enum members are looked up by the raw text: lower-case names documented in the README are rejected")
     if "bool" in kinds:
-        a = kinds["bool"][1][2]
-        ctx.ob("C20.d", fn.qual, len(a) == 2 and meth_is(strip(a[0]), "capitalize") and a[1] == ("global", "bool"), "booleans: capitalised literal through bool (True/False/1/0)",
+        lit = literal_of(kinds["bool"][1][2][0])
+        ctx.ob("C20.d", fn.qual, lit is not None and meth_is(lit, "capitalize"), "booleans: capitalised literal through bool (True/False/1/0)",
                func=fn.qual, file=file, construct="convert(value.capitalize(), bool)", fail="boolean conversion changed (true/false spellings or 1/0 no longer accepted)")
     if "number" in kinds:
-        a = kinds["number"][1][2]
-        ctx.ob("C20.d", fn.qual, len(a) == 2 and call_is(strip(a[1]), "type"), "numbers: literal through the default's type (int or float)", func=fn.qual, file=file,
-               construct="convert(value, attr_type)", fail="numeric conversion no longer uses the attribute's own type")
-    conv = [n for n in ast.walk(fn.node) if isinstance(n, ast.FunctionDef) and n.name == "convert"]
+        lit = literal_of(kinds["number"][1][2][0])
+        ctx.ob("C20.d", fn.qual, lit is not None and (VALUE is None or lit == VALUE), "numbers: literal through the default's type (int or float)", func=fn.qual, file=file,
+               construct="convert(value, attr_type)", fail="numeric conversion no longer uses the attribute's own type / the given text")
+    # the literal converter: where a type is applied directly to ast.literal_eval(text), ill-typed text exits non-zero
+    from ..helpers import ancestor_chains
+    conv_sites = ancestor_chains(prog, fn, lambda f_, n: isinstance(n.func, ast.Attribute) and n.func.attr == "literal_eval")
     c_ok = False
-    for c in conv:
-        rets = [n for n in ast.walk(c) if isinstance(n, ast.Return)]
-        tries = [n for n in ast.walk(c) if isinstance(n, ast.Try)]
-        c_ok = len(rets) == 1 and norm(rets[0].value) == f"{c.args.args[1].arg}(ast.literal_eval({c.args.args[0].arg}))" and bool(tries) and \
-            any(any(isinstance(x, ast.Call) and isinstance(x.func, ast.Name) and x.func.id == "exit" for x in ast.walk(h)) for t in tries for h in t.handlers) and \
-            any({"ValueError", "SyntaxError"} <= {norm(e) for e in (h.type.elts if isinstance(h.type, ast.Tuple) else [h.type])} for t in tries for h in t.handlers)
-    ctx.ob("C20.d", fn.qual, c_ok, "convert(v, t) = t(ast.literal_eval(v)); ill-typed literals exit non-zero", func=fn.qual, file=file, construct="convert()",
+    n_conv = 0
+    for _f, call, chains in conv_sites:
+        for chain in chains:
+            if not chain or not isinstance(chain[0][0], ast.Call):
+                continue            # (the enum branch only probes for a number and falls back to the name: not a converter)
+            n_conv += 1
+            tr = next((x for x, fld in chain if isinstance(x, ast.Try) and fld == "body"), None)
+            c_ok = tr is not None and any(
+                {"ValueError", "SyntaxError"} <= {norm(e) for e in (h.type.elts if isinstance(h.type, ast.Tuple) else [h.type])} and
+                any(isinstance(x, ast.Call) and isinstance(x.func, ast.Name) and x.func.id == "exit" for x in ast.walk(h)) for h in tr.handlers if h.type is not None)
+            if not c_ok:
+                break
+    ctx.ob("C20.d", fn.qual, c_ok and n_conv >= 1, "convert(v, t) = t(ast.literal_eval(v)); ill-typed literals exit non-zero", func=fn.qual, file=file, construct="convert()",
            fail="the literal converter changed (ill-typed values are no longer rejected with a non-zero exit)")
     for conds, leaf, st in leaves:
         ctx.ob("C20.e", fn.qual, strip(leaf[2]) == strip(NAME) and strip(NAME)[0] == "item" and strip(NAME)[2] == 0, "a value is recorded under the name given on the command line",
@@ -251,7 +333,7 @@ def run(ctx):
                 nm = f.attr if isinstance(f, ast.Attribute) else (f.id if isinstance(f, ast.Name) else None)
                 if nm in ("refresh", "apply", "setattr", "toggle_display", "_connect"):
                     ev.append(nm)
-                if nm == "pop" and c.args and isinstance(c.args[0], ast.Name) and c.args[0].id == "KEY_DISPLAY_ON":
+                if nm == "pop" and c.args and s.ta.terms_at.get(c.args[0]) == ("const", "display_on"):
                     ev.append("display_popped")
             if isinstance(c, ast.NamedExpr) and isinstance(c.value, ast.Call) and isinstance(c.value.func, ast.Attribute) and c.value.func.attr == "pop":
                 ev.append("display_popped")
@@ -290,8 +372,8 @@ def run(ctx):
                     coll = strip(src[1])
                     if meth_is(coll, "items", "keys"):
                         coll = strip(coll[1][1])
-                    okk = coll[0] in ("mut", "loopvar") and (coll[0] == "loopvar" and coll[1] == "new_properties" or
-                                                             coll[0] == "mut" and any(x[0] == "loopvar" and x[1] == "new_properties" for x in subterms(coll)))
+                    okk = coll[0] in ("mut", "loopvar") and (coll[0] == "loopvar" and coll[1] == PEND or
+                                                             coll[0] == "mut" and any(x[0] == "loopvar" and x[1] == PEND for x in subterms(coll)))
             ctx.ob("C20.e", fn.qual, okk, "only names from the pending (command-line) set are assigned", func=fn.qual, file=file, node=node,
                    fail="setattr assigns names that do not come from the parsed command-line settings")
         if isinstance(node, ast.Expr) and isinstance(node.value, ast.Await) and isinstance(node.value.value, ast.Call) and isinstance(node.value.value.func, ast.Attribute):
@@ -301,7 +383,7 @@ def run(ctx):
                 facts = atoms(s.ta.env_at[node].pc) if node in s.ta.env_at else []
                 def is_pending(x):
                     x = strip(x)
-                    return x[0] in ("mut", "loopvar") and any(y[0] == "loopvar" and y[1] == "new_properties" for y in subterms(x))
+                    return x[0] in ("mut", "loopvar") and any(y[0] == "loopvar" and y[1] == PEND for y in subterms(x))
                 nonempty = False
                 for c, truth in (s.ta.env_at[node].pc if node in s.ta.env_at else ()):
                     cs = strip(c)
